@@ -534,8 +534,9 @@ ALSO = {'C01': {('C18', 'stale-output'), ('C18', 'stale-resource'),
         'C09': {('C02', 'executed-with-consistent-dependencies')},
         'C19': {('C08', 'phantom-dependency')},
         # "the error ... never aborts the build": a well-formed program never aborts; in the failing-checker streams an abort is C18's
-        'C18': {('C20', 'wf-abort overlap'), ('C20', 'wf-abort hidden'), ('C20', 'wf-abort cycle'), ('C19', 'wf-abort overlap'), ('C19', 'wf-abort hidden'), ('C19', 'wf-abort cycle'),
-                ('C06', 'self-overlap')},
+        # (only in histories without an earlier aborted build: after a task panic the partial record of the aborted task can make a
+        # later build stop with a different diagnosis while the panic's cause still exists -- C19's territory, not a checker error's)
+        'C18': {('C20', 'wf-abort overlap'), ('C20', 'wf-abort hidden'), ('C20', 'wf-abort cycle'), ('C06', 'self-overlap')},
         # such an edge makes later builds abort (cycle) or skip a diagnosis for a violation that does not / does exist now
         'C20': {('C08', 'phantom-dependency'), ('C19', 'phantom-dependency')}}
 def mine(prop, pr, sig):
